@@ -137,7 +137,17 @@ func (p *warcfieldsParser) Parse(r *bufio.Reader, validation *Validation, pos *p
 				if l == nil {
 					return nil, err
 				}
-				validation.addError(err)
+				if err == errEndOfHeaders {
+					eoh = true
+					err = newSyntaxError("missing newline", pos)
+				}
+				switch p.Options.errSyntax {
+				case ErrIgnore:
+				case ErrWarn:
+					validation.addError(err)
+				case ErrFail:
+					return nil, err
+				}
 			}
 			line = append(line, ' ')
 			line = append(line, l...)
